@@ -861,6 +861,7 @@ func TestC10(t *testing.T) {
 		return
 	}
 	floodPart(t)
+	retransPart(t)
 	vcore.Check(t, vcore.N(600, 7500), func(rt *rapid.T) {
 		c := gen(rt)
 		v, s := run(c)
